@@ -85,7 +85,7 @@ def check_term(t):
     if not isinstance(text, str):
         return ("render-nonstring", "source=%r -> %r" % (src, text))
     try:
-        b = lib.parse(text)
+        b = lib.parse_plain(text)     # parsed here and now, wherever `a` came from
     except Exception as e:
         return ("reparse-exception:" + type(e).__name__,
                 "source=%r rendered=%r -> %s: %s" % (src, text, type(e).__name__, e))
@@ -95,6 +95,8 @@ def check_term(t):
         return ("malformed-ast", "source=%r rendered=%r: %s" % (src, text, e))
     if da != db or a != b:
         return ("mismatch:" + mismatch_kind(da, db), "source=%r rendered=%r expected=%r got=%r" % (src, text, da, db))
+    if b != a or _hash(a) != _hash(b):
+        return ("equal-trees-compare-or-hash-differently", "source=%r: the tree and parse(render(tree)) decode alike but are not equal both ways / hash differently" % src)
     try:
         text2 = AstToODataVisitor().visit(b)
     except Exception as e:
@@ -102,6 +104,13 @@ def check_term(t):
     if text2 != text:
         return ("not-a-fixpoint", "render=%r render(parse(render))=%r" % (text, text2))
     return None
+
+
+def _hash(a):
+    try:
+        return hash(a)
+    except TypeError:      # nodes that hold lists are not hashable
+        return None
 
 
 def replay(case):
